@@ -1,5 +1,5 @@
 (* Props_C07.v — referrers responses: pagination (Referrer.v) and isolation of the maintenance (Reg.v). *)
-From Olareg Require Import Base Index Reg RegProofs Referrer.
+From Olareg Require Import Base Index Reg RegProofs Referrer RespInv.
 Local Open Scope list_scope.
 
 (* for every size limit and every list of descriptors (with any JSON lengths): every page is non-empty and
@@ -37,3 +37,22 @@ Proof. exact request_frame. Qed.
 Example C07_split_example :
   split (fun i : nat => nth i [30; 30; 30; 200; 30]%Z 0%Z) 10 100 [0; 1; 2; 3; 4]%nat = ([[0; 1]; [2]; [4]]%nat, [3%nat]).
 Proof. vm_compute. reflexivity. Qed.
+
+(* "each once": the response of a subject is maintained with AddDesc / RmDesc on the descriptors of the stored response
+   (Reg.referrer_add / referrer_delete).  For an artifact whose own annotations do not use the two reserved keys (the open
+   finding F10 is about those that do): adding it keeps the digests of the list distinct, keeps every entry, and lists it;
+   deleting it by digest removes every entry with its digest, keeps every other entry and keeps the digests distinct *)
+Theorem C07_response_add_once : forall d old i',
+  ann_get RefName d = "" -> ann_get RefSubject d = "" ->
+  NoDup (digs old) -> add_desc d [] (resp_index old) = Ok i' ->
+  NoDup (digs (top i')) /\ In (d_dig d) (digs (top i')) /\ (forall x, In x old -> In x (top i'))
+  /\ (forall x, In x (top i') -> In x old \/ x = d).
+Proof. exact resp_add_once. Qed.
+Theorem C07_response_delete_once : forall d l i',
+  ann_get RefName d = "" -> ann_get RefSubject d = "" -> nonempty (d_dig d) = true ->
+  rm_desc d (resp_index l) = Ok i' ->
+  (forall x, In x (top i') <-> (In x l /\ d_dig x <> d_dig d))
+  /\ (NoDup (digs l) -> NoDup (digs (top i'))).
+Proof. exact resp_rm_once. Qed.
+Print Assumptions C07_response_add_once.
+Print Assumptions C07_response_delete_once.
